@@ -19,7 +19,7 @@ from the bytes, never one from the other, so it can serve as the oracle for the 
                                a [v6]:port              (0..n)
                                s Flag Flag ...          (alphabetical, as Tor writes them)
                                w Bandwidth=N            (optional)
-                               p accept|reject ports    (optional, only after a w line)
+                               p accept|reject ports    (optional; after the w line if there is one)
     parse_document(lines) -> list of relay records (independent line-grammar reader; raises
                              ValueError on anything render_document cannot have produced)
     expected_view(doc)    -> {"$HEX": {...attributes the relay view must show...}}
@@ -113,9 +113,8 @@ def check_relay(r):
         raise ValueError("bad flags %r" % (r["flags"],))
     if r["bw"] is not None and not (isinstance(r["bw"], int) and r["bw"] >= 0):
         raise ValueError("bad bandwidth %r" % (r["bw"],))
-    if r["policy"] is not None:
-        if r["bw"] is None or not POLICY_RE.match(r["policy"]):
-            raise ValueError("bad policy %r (bw %r)" % (r["policy"], r["bw"]))
+    if r["policy"] is not None and not POLICY_RE.match(r["policy"]):
+        raise ValueError("bad policy %r" % (r["policy"],))
 
 
 def w_has_unmeasured(r):
@@ -134,8 +133,9 @@ def render_relay(r):
         # only Bandwidth=; the optional trailing keyword is rendered for a quarter of the relays (derived from the
         # record, so the case format is unchanged) because dir-spec allows it on a w line
         lines.append("w Bandwidth=%d%s" % (r["bw"], " Unmeasured=1" if w_has_unmeasured(r) else ""))
-        if r["policy"] is not None:
-            lines.append("p " + r["policy"])
+    if r["policy"] is not None:
+        # dir-spec 3.4.1: "w" and "p" are each "at most once", in this order; either may be absent on its own
+        lines.append("p " + r["policy"])
     return lines
 
 
@@ -157,10 +157,10 @@ def render_document(doc):
 # ----------------------------------------------------------------------------- reference reader
 
 def parse_document(lines):
-    """Read back what render_document produced (r, a*, s, [w, [p]] per entry)."""
+    """Read back what render_document produced (r, a*, s, [w], [p] per entry)."""
     out = []
     cur = None
-    stage = None            # what may follow: after 'r' -> a|s ; after 's' -> w|r ; after 'w' -> p|r ; after 'p' -> r
+    stage = None            # what may follow: after 'r' -> a|s ; after 's' -> w|p|r ; after 'w' -> p|r ; after 'p' -> r
     for ln in lines:
         kw, _, rest = ln.partition(" ")
         if kw == "r":
@@ -189,7 +189,7 @@ def parse_document(lines):
             cur["bw"] = int(rest[len("Bandwidth="):].split(" ")[0])
             stage = "w"
         elif kw == "p":
-            if stage != "w":
+            if stage not in ("s", "w"):
                 raise ValueError("misplaced p line %r" % (ln,))
             cur["policy"] = rest
             stage = "p"
